@@ -34,6 +34,21 @@ CHECKS = {
  "C04": ("E4-dev", "exhaustive enumeration of hostile decoder inputs: all short byte strings, all single deviations (truncation, byte substitution, token replacement/insertion) from every valid corpus encoding, all short token strings; each decoded by the real Unmarshal / Codec.Read / Descriptor.Read under three memory presentations",
    "26 targets (an every-encoding struct in default and proto configuration, each container type at top level, recursive hand-written types, the JSON-any codecs). Every byte string of length <=2 (thorough: +third byte from the boundary alphabet), every truncation / alphabet substitution / boundary-varint token replacement or insertion of every corpus encoding (thorough: two deviations on short encodings), every token string of <=3 (4) tokens. Oracles per input: no panic or fatal error (worker death is attributed to the input), termination (watchdog), identical result for capacity==length and two differently filled spare capacities (no read outside the input), allocation bound confirmed with an exact measurement, Read's n within [0,len].",
    "Trusted: the Go runtime's bounds checks and allocation statistics. Honest descriptors only. Inputs further than 2 deviations from a valid encoding and raw strings longer than 3 bytes are outside the bound.", "§7 C04"),
+ "C06": ("E2-bfs", "explicit-state exploration of Marshal call histories (buffer kind x value x calling convention) on one real instance with the reference encoder as oracle",
+   "Every history of <=3 (thorough 4) Marshal calls over 20 types chosen to hit every interface representation (pointer-shaped structs, maps, pointers, scalars, slices, ordinary structs), 7 buffer kinds (nil, empty, spare capacity, exact-capacity prefix, patterned spare prefix, previous result, previous result[:0]), by value and by pointer, values always including ones that encode to nothing. Each call: nil error, buffer prefix preserved byte for byte, appended bytes match the reference encoding tree.",
+   "Trusted: ref.EncTop. From the third call on only the buffer-re-using kinds are varied.", "§7 C06"),
+ "C09": ("E1-enum", "bounded exhaustive enumeration of presence-carrying positions x pointee types x presence states, reference expectation and Descriptor flag model as oracle",
+   "Every pointee type (all leaves, structs, slices) in every presence position (pointer field, null.X field, pointer/null map value under zero and non-zero keys, **X, pointers inside pointed-to structs, map[K]*struct, slice of structs with pointer and null fields) between two siblings, values {absent, present zero, present non-zero, present-but-encodes-to-nothing}: presence and pointee after the round trip equal the reference; all-absent values encode to zero bytes; ExplicitPresence is set for exactly the pointer / null typed struct fields and map keys/values.",
+   "Trusted: ref.Expect. Slice-element descriptor flags are not judged.", "§7 C09"),
+ "C11": ("E1-enum", "bounded exhaustive enumeration with address-range (aliasing) analysis of the live values and buffers",
+   "Same universe as C01: after Marshal the value and buffer prefix are unchanged and the output shares no memory with anything reachable from the value; after Unmarshal from a buffer with spare capacity the input is unchanged, no string / slice backing array / pointee reachable from the decoded value intersects input[0:cap], and after the input is overwritten and re-used for another Marshal the decoded value (and a second decode through the same instance) is unchanged.",
+   "Trusted: reflect/unsafe address arithmetic in the harness. Map bucket memory is inspected through its keys and values.", "§7 C11"),
+ "C12": ("E1-enum", "bounded exhaustive enumeration over the four configurations with an independent schema-directed protobuf framing reader and the reference encoder",
+   "Every struct type of the universe with every map field tagged proto, all four configurations, boundary values: only wire types 0,1,2,5 and exact lengths under both switches; bytes match the reference encoding of each configuration; flipping a switch leaves types it does not concern byte-identical; round trip per configuration; a default-mode instance decodes the repeated-field form (arrays-only configuration, and both switches for time-free types) to the same value.",
+   "Trusted: ref.Walk / ref.WireTypes (no protobuf library). Types with nested presence (**T, *null.X) are left to C01/C09.", "§7 C12"),
+ "C03": ("E1-enum", "bounded exhaustive enumeration of schema pairs (S, S') x values on the real decoder with the reference merge model as oracle",
+   "S = every tuple of <=3 (thorough 4) fields over 12 skip-relevant encodings + sentinel; S' = every removal subset x every permutation with fresh names x optional added field; values = full product of {zero, nz1, nz2}; top level, nested as a field and as slice elements; targets pre-populated with sentinels. No error, shared indexes as decoding into S, absent/added fields keep their prior value, the field after skipped data is intact.",
+   "Trusted: ref.Merge. Field kinds are one representative per wire class.", "§7 C03"),
 }
 NOT_YET = "check not built yet (in progress); see DESIGN.md §7 for the planned model-checking design"
 
@@ -69,6 +84,7 @@ def main():
         "engines": [
             {"name": "E3-sched", "path": "harness/sched + harness/vsync + harness/vatomic + harness/cmd/ovl", "serves_properties": ["C07", "C19", "C10"], "kind_free_text": "cooperative scheduler + preemption-bounded DFS over the real code; sync and sync/atomic are replaced by shims through a generated go build -overlay"},
             {"name": "E4-dev", "path": "harness/props/c04.go, c18.go", "serves_properties": ["C04", "C18"], "kind_free_text": "deviation-bounded exhaustive hostile-input enumeration with crash/hang attribution per input"},
+            {"name": "E2-bfs", "path": "harness/props/c06.go, c10.go, c15.go, c19.go", "serves_properties": ["C06", "C10", "C15", "C19"], "kind_free_text": "explicit-state search over operation histories of real objects (successor = replay on a fresh instance + one operation), de-duplicated on the real private state where a state key exists"},
             {"name": "E1-enum", "path": "harness/mc + harness/ref + harness/props", "serves_properties": [p for p in CHECKS if CHECKS[p][0] == "E1-enum"], "kind_free_text": "bounded exhaustive case enumeration on the real code vs. reference model, sharded over worker processes with crash/hang attribution"},
         ],
         "checks": checks,
